@@ -22,7 +22,8 @@ type admCfg struct {
 	BtcEnabled, LbtcEnabled                      bool
 	Spendable, Receivable                        uint64 // msat
 	Balance, OpeningFee                          uint64 // sat
-	RatePPM                                      int64
+	RatePPM                                      int64 // rate of the requested direction
+	OtherRatePPM                                 int64 // rate of the other direction (must not matter)
 }
 
 type admReq struct {
@@ -131,7 +132,7 @@ func TestC11Admission(t *testing.T) {
 		keyHex := hex.EncodeToString(sim.KeyFromName("requester-swapkey").PubKey().SerializeCompressed())
 		c := admCfg{AllowNew: true, AcceptAll: rapid.Bool().Draw(t, "acceptAll"), Allowlisted: true, MinMsat: rapid.SampledFrom([]uint64{0, 1000, 100_000_000, 250_000_500}).Draw(t, "minMsat"),
 			BtcEnabled: true, LbtcEnabled: true, Spendable: 5_000_000_000, Receivable: 5_000_000_000, Balance: 10_000_000, OpeningFee: 1000,
-			RatePPM: rapid.SampledFrom([]int64{0, 0, 1000, 2000, -500}).Draw(t, "rate")}
+			RatePPM: rapid.SampledFrom([]int64{0, 0, 1000, 2000, -500}).Draw(t, "rate"), OtherRatePPM: rapid.SampledFrom([]int64{0, 5000, -3000, 100_000}).Draw(t, "otherRate")}
 		if !c.AcceptAll {
 			c.Allowlisted = true
 		} else {
@@ -149,7 +150,7 @@ func TestC11Admission(t *testing.T) {
 		}
 		// ... then a generated number of deviations, each breaking (or probing the edge of) one condition
 		devs := []string{"swaps-disabled", "chain-off", "wrong-network", "wrong-asset", "both-chains", "no-chain", "version", "amount-below-min", "amount-at-min", "amount-zero",
-			"amount-over-capacity", "amount-at-capacity", "amount-overflow", "not-allowlisted", "suspicious", "premium-over-limit", "premium-at-limit", "balance-short", "balance-exact",
+			"amount-over-capacity", "amount-at-capacity", "amount-overflow", "not-allowlisted", "suspicious", "premium-over-limit", "premium-at-limit", "premium-limit-between-directions", "balance-short", "balance-exact", "balance-below-fee", "balance-zero",
 			"bad-pubkey", "bad-scid", "unknown-channel"}
 		nd := rapid.SampledFrom([]int{0, 0, 1, 1, 1, 1, 2, 3}).Draw(t, "ndev")
 		var applied []string
@@ -200,6 +201,18 @@ func TestC11Admission(t *testing.T) {
 			case "premium-at-limit":
 				c.RatePPM = 1000
 				r.PremiumLimit = int64(r.Amount / 1000)
+			case "premium-limit-between-directions":
+				// the limit separates what the two directions would charge
+				c.RatePPM, c.OtherRatePPM = 7000, 1000
+				if rapid.Bool().Draw(t, "otherHigher") {
+					c.RatePPM, c.OtherRatePPM = 1000, 7000
+				}
+				r.PremiumLimit = int64(r.Amount/1_000_000) * 4000
+			case "balance-below-fee":
+				c.OpeningFee = rapid.SampledFrom([]uint64{1000, 100, 50_000}).Draw(t, "openingFee")
+				c.Balance = rapid.SampledFrom([]uint64{0, 1, c.OpeningFee - 1, c.OpeningFee}).Draw(t, "tinyBalance")
+			case "balance-zero":
+				c.Balance = 0
 			case "balance-short":
 				c.Balance = r.Amount + c.OpeningFee - 1
 			case "balance-exact":
@@ -213,6 +226,11 @@ func TestC11Admission(t *testing.T) {
 			}
 		}
 		explicitRate := c.RatePPM != 0 || rapid.Bool().Draw(t, "explicitRate")
+		for _, d := range applied {
+			if d == "premium-limit-between-directions" {
+				explicitRate = true
+			}
+		}
 
 		w := sim.NewWorld()
 		defer w.Close()
@@ -243,7 +261,11 @@ func TestC11Admission(t *testing.T) {
 		if explicitRate {
 			for _, as := range []premium.AssetType{premium.BTC, premium.LBTC} {
 				for _, op := range []premium.OperationType{premium.SwapIn, premium.SwapOut} {
-					pr, _ := premium.NewPremiumRate(as, op, premium.NewPPM(c.RatePPM))
+					rate := c.RatePPM
+					if (op == premium.SwapOut) != r.Out {
+						rate = c.OtherRatePPM
+					}
+					pr, _ := premium.NewPremiumRate(as, op, premium.NewPPM(rate))
 					if err := a.Premium.SetRate(nil, m.Id, pr); err != nil {
 						t.Fatalf("SetRate: %v", err)
 					}
